@@ -65,7 +65,7 @@ def extras(rng):
             "old_tag": rng.choice([None, "1.2.0", "1.2.3", "1.3.0", "1.3.0"]), "ignore_vcs_tag": rng.random() < 0.12,
             "novcs": rng.random() < 0.06,
             "noise": rng.choice([[], [], [], ["-v"], ["--pin-increments"], ["--tag-scope", "global"], ["--tag", "final"]]),
-            "syntax": rng.choice(["toml", "cfg"]),
+            "syntax": rng.choice(["toml", "cfg"]), "fail_rc": rng.choice([3, 3, 1, 255, 127, -9, -15, -13]),
             # started from inside another release's hook (or a CI job that exports them): the variables are already set
             "inherited_env": rng.choice([None, None, None, None, {"BUMPVER_OLD_VERSION": "0.9.0", "BUMPVER_NEW_VERSION": "0.9.1"},
                                          {"BUMPVER_NEW_VERSION": "7.7.7"}, {"BUMPVER_OLD_VERSION": ""}])}
@@ -114,8 +114,9 @@ def build_world(cfg):
         repo.status = [("M " if pers == "git" else "M", "other.txt")]
     elif cfg["dirty"] == "pattern":
         repo.status = [("M " if pers == "git" else "M", "a.txt")]
-    plan = {"pre.sh": {"ok": "ok", "fail": "fail", "absent": "ok", "eacces": "eacces"}[cfg["pre"]],
-            "post.sh": {"ok": "ok", "fail": "fail", "absent": "ok", "eacces": "eacces"}[cfg["post"]]}
+    fail = "fail:%d" % cfg.get("fail_rc", 3)     # how a failing hook ends: exit status, or killed by a signal (negative)
+    plan = {"pre.sh": {"ok": "ok", "fail": fail, "absent": "ok", "eacces": "eacces"}[cfg["pre"]],
+            "post.sh": {"ok": "ok", "fail": fail, "absent": "ok", "eacces": "eacces"}[cfg["post"]]}
     argv = ["update", "--patch"]
     for flag, val in (("commit", cfg["f_commit"]), ("tag-commit", cfg["f_tag"]), ("push", cfg["f_push"])):
         if val is True:
@@ -524,7 +525,9 @@ class RealSteps:
         return {"pre": rng.choice(["absent", "ok", "ok", "fail"]), "post": rng.choice(["absent", "ok", "ok", "fail"]),
                 "tag": rng.random() < 0.8, "push": rng.random() < 0.5, "remote": rng.random() < 0.7,
                 "hook_src": rng.choice(["config", "cli"]), "dry": rng.random() < 0.15, "ops": [{"op": "update"}],
-                "inherited_env": rng.choice([None, None, {"BUMPVER_OLD_VERSION": "0.9.0", "BUMPVER_NEW_VERSION": "0.9.1"}])}
+                "inherited_env": rng.choice([None, None, {"BUMPVER_OLD_VERSION": "0.9.0", "BUMPVER_NEW_VERSION": "0.9.1"}]),
+                # a failing hook either exits non-zero or is killed (CI cancel, OOM killer)
+                "fail_how": rng.choice(["exit 7", "exit 7", "exit 255", "kill -KILL $$", "kill -TERM $$"])}
 
     def run(self, case, ctx):
         from sim import realgit
@@ -536,9 +539,10 @@ class RealSteps:
         for which in ("pre", "post"):
             if case[which] == "absent":
                 continue
+            ending = "exit 0" if case[which] == "ok" else case.get("fail_how", "exit 7")
             script = ("#!/bin/sh\necho \"%s $BUMPVER_OLD_VERSION $BUMPVER_NEW_VERSION $(git rev-parse HEAD) "
-                      "$(git tag --list | wc -l) $(git status --porcelain | wc -l)\" >> '%s'\nexit %d\n"
-                      % (which, log, 0 if case[which] == "ok" else 7))
+                      "$(git tag --list | wc -l) $(git status --porcelain | wc -l)\" >> '%s'\n%s\n"
+                      % (which, log, ending))
             path = os.path.join(d, which + ".sh")
             with open(path, "w") as fobj:
                 fobj.write(script)
